@@ -40,7 +40,13 @@ class Hang(BaseException):
     pass
 
 
+_alarm_fired = [False]
+
+
 def _alarm(_sig, _frm):
+    # the exception may land inside a context manager's __enter__/__exit__ and be replaced by a
+    # secondary exception (e.g. the stack assertion of Awaiting): remember that the alarm fired
+    _alarm_fired[0] = True
     raise Hang()
 
 
@@ -49,6 +55,7 @@ class watchdog:
         self.seconds = seconds
 
     def __enter__(self):
+        _alarm_fired[0] = False
         self.old = signal.signal(signal.SIGALRM, _alarm)
         signal.setitimer(signal.ITIMER_REAL, self.seconds)
         return self
@@ -157,6 +164,10 @@ def assemble(sources, charset="bk", timeout=10.0, want_symbols=False, parse_only
                 res.exc = (type(ex).__name__, str(ex)[:300])
     except Hang:
         res.outcome = "hang"
+        _reset_module_state()
+    if _alarm_fired[0] and res.outcome != "hang":
+        res.outcome = "hang"
+        res.exc = ("watchdog", "alarm fired; secondary exception %r" % (res.exc,))
         _reset_module_state()
     if res.outcome in ("crash",):
         _reset_module_state()
